@@ -190,6 +190,13 @@ def gen_sites():
         names = set(re.findall(r"let\s+(?:mut\s+)?(\w+)(?:\s*:\s*[^=]+)?\s*=\s*Hash(?:Set|Map)::new\(\)", src))
         names |= set(re.findall(r"(\w+)\s*:\s*&?(?:mut\s+)?Hash(?:Set|Map)<", src))
         names |= set(re.findall(r"let\s+(?:mut\s+)?(\w+)\s*:\s*Hash(?:Map|Set)<", src))
+        # type aliases of hash containers (`type Cache<'a> = HashMap<..>`), in any file of the crate
+        aliases = set()
+        for g in files:
+            aliases |= set(re.findall(r"\btype\s+(\w+)\s*(?:<[^=]*>)?\s*=\s*(?:std::collections::)?Hash(?:Set|Map)\s*<", strip_comments(strip_tests(read("src/" + g)))))
+        for al in aliases:
+            names |= set(re.findall(r"(\w+)\s*:\s*&?(?:\s*'\w+\s+)?(?:mut\s+)?" + al + r"\b", src))
+            names |= set(re.findall(r"let\s+(?:mut\s+)?(\w+)(?:\s*:\s*[^=]+)?\s*=\s*" + al + r"::new\(\)", src))
         # iteration over a hash container, wherever the method chain is broken across lines
         fn_starts = [(m.start(), m.group(1)) for m in re.finditer(r"\bfn\s+(\w+)", src)]
         def fn_at(pos):
